@@ -2,6 +2,7 @@
 // Engine gridmc: every element of the declared finite input grids is run through the real rkcommon
 // code and compared with the same algebra evaluated independently in long double (C06_ref.h).
 #include "C06_matrix.h"
+#include "C06_ops.h"
 #include "C06_rot.h"
 
 static const LD VALS7[7] = {-2, -1, -0.5L, 0, 0.5L, 1, 2};
@@ -45,6 +46,10 @@ static void lin3_one(Rep &R, const LD *e, const Pre &a, int npartners)
     check_pair<L>(R, c, P3[k].pre, a);
   }
   check_linear_xfm<L>(R, c, a, P3[0].pre);
+  // remaining operators, with the partner selected by the entries (all 4 partners occur over the grid)
+  const int k = ((int)(2 * (e[0] + e[4] + e[8])) + 12 + (int)(2 * e[1]) + 4) % 4;
+  check_linear_ops<L>(R, c, a, P3[k].pre);
+  check_linear_ops<L>(R, c, P3[k].pre, a);
 }
 template <class L>
 static void aff3_one(Rep &R, const LD *e, const Pre &a, const ref::V &t, int np)
@@ -52,6 +57,8 @@ static void aff3_one(Rep &R, const LD *e, const Pre &a, const ref::V &t, int np)
   Case c = case_of("aff3", Nm<L>::aff(), e, 9, &t, 3);
   check_affine<L>(R, c, a, t, P3, np);
   check_affine_xfm<L>(R, c, a, t);
+  const int k = ((int)(t.v[0] + 2 * t.v[1] + 3 * t.v[2]) + 12) % 4;
+  check_affine_ops<L>(R, c, a, t, P3[k]);
 }
 static void lin2_one(Rep &R, const LD *e, const Pre &a)
 {
@@ -66,11 +73,14 @@ static void lin2_pair(Rep &R, const LD *ea, const Pre &a, const LD *eb, const Pr
     e[i] = ea[i], e[4 + i] = eb[i];
   Case c = case_of("lin2pair", "LinearSpace2f", e, 8);
   check_pair<LinearSpace2f>(R, c, a, b);
+  check_linear_ops<LinearSpace2f>(R, c, a, b);
 }
 static void aff2_one(Rep &R, const LD *e, const Pre &a, const ref::V &t)
 {
   Case c = case_of("aff2", "AffineSpace2f", e, 4, &t, 2);
   check_affine<LinearSpace2f>(R, c, a, t, P2, 4);
+  for (int k = 0; k < 4; k++)
+    check_affine_ops<LinearSpace2f>(R, c, a, t, P2[k]);
 }
 template <class L>
 static void st_one(Rep &R, const ref::V &s)
@@ -169,6 +179,9 @@ static void sweep_scale_translate()
 {
   static const LD SV[4] = {-2, 0.5L, 1, 3};
   Rep R;
+  check_constants<LinearSpace2f>(R);
+  check_constants<LinearSpace3f>(R);
+  check_constants<LinearSpace3fa>(R);
   for (int i = 0; i < 64; i++) {
     ref::V s = ref::vec(SV[i / 16], SV[(i / 4) % 4], SV[i % 4]);
     st_one<LinearSpace3f>(R, s);
